@@ -1,0 +1,160 @@
+//! Verification hooks (compiled only with `--cfg jsonpath_rust_verif`).
+//!
+//! When a recorder is installed on the current thread, selected internal steps of the evaluator
+//! append one self-contained JSON event each (arguments and result in the same record) to a
+//! thread-local buffer. Nothing here influences the evaluation: a hooked function observes its own
+//! result by calling itself once more with a one-shot "re-entry" token set, so the body that runs
+//! is the function's real body.
+use crate::query::queryable::Queryable;
+use crate::query::state::{Data, State};
+use serde_json::{json, Value};
+use std::cell::{Cell, RefCell};
+
+thread_local! {
+    static BUF: RefCell<Option<Vec<String>>> = const { RefCell::new(None) };
+    static REENTER: Cell<u8> = const { Cell::new(0) };
+    static DEPTH: Cell<u32> = const { Cell::new(0) };
+    static FRAMES: RefCell<Vec<(u32, u32)>> = const { RefCell::new(Vec::new()) };
+    static STASH: RefCell<Vec<Value>> = const { RefCell::new(Vec::new()) };
+    static TICKS: Cell<u64> = const { Cell::new(0) };
+}
+
+pub const CMP: u8 = 1;
+pub const SLICE: u8 = 2;
+pub const SEG: u8 = 4;
+pub const FRAME: u8 = 8;
+
+/// Starts recording on this thread.
+pub fn install() {
+    BUF.with(|b| *b.borrow_mut() = Some(Vec::new()));
+    DEPTH.with(|d| d.set(0));
+    FRAMES.with(|s| s.borrow_mut().clear());
+    STASH.with(|s| s.borrow_mut().clear());
+    REENTER.with(|r| r.set(0));
+}
+
+/// Stops recording and returns the events.
+pub fn take() -> Vec<String> {
+    BUF.with(|b| b.borrow_mut().take().unwrap_or_default())
+}
+
+pub(crate) fn active() -> bool {
+    BUF.with(|b| b.borrow().is_some())
+}
+
+/// True exactly once after `set_reenter(kind)`: the hooked function is being called by its own hook.
+pub(crate) fn reenter(kind: u8) -> bool {
+    REENTER.with(|r| {
+        let v = r.get();
+        r.set(v & !kind);
+        v & kind != 0
+    })
+}
+pub(crate) fn set_reenter(kind: u8) {
+    REENTER.with(|r| r.set(r.get() | kind));
+}
+
+pub(crate) fn emit(v: Value) {
+    BUF.with(|b| {
+        if let Some(buf) = b.borrow_mut().as_mut() {
+            buf.push(v.to_string());
+        }
+    });
+}
+
+pub(crate) fn tick() {
+    TICKS.with(|t| t.set(t.get() + 1));
+}
+pub(crate) fn reset_ticks() {
+    TICKS.with(|t| t.set(0));
+}
+pub(crate) fn ticks() -> u64 {
+    TICKS.with(|t| t.get())
+}
+
+/// Query frames: depth 1 is the query handed to the entry point, deeper ones are queries inside filters.
+/// Each frame counts its outermost segments and how deeply `Segment::process` is nested within it.
+pub(crate) fn frame_enter() {
+    FRAMES.with(|s| s.borrow_mut().push((0, 0)));
+    DEPTH.with(|d| d.set(d.get() + 1));
+}
+pub(crate) fn frame_exit() {
+    FRAMES.with(|s| {
+        s.borrow_mut().pop();
+    });
+    DEPTH.with(|d| d.set(d.get().saturating_sub(1)));
+}
+pub(crate) fn depth() -> u32 {
+    DEPTH.with(|d| d.get())
+}
+/// Enters `Segment::process`; returns (nesting within the frame, 1-based number of the segment if outermost).
+pub(crate) fn seg_enter() -> (u32, u32) {
+    FRAMES.with(|s| {
+        let mut s = s.borrow_mut();
+        match s.last_mut() {
+            Some((seq, nest)) => {
+                *nest += 1;
+                if *nest == 1 {
+                    *seq += 1;
+                }
+                (*nest, *seq)
+            }
+            None => (0, 0),
+        }
+    })
+}
+pub(crate) fn seg_exit() {
+    FRAMES.with(|s| {
+        if let Some((_, nest)) = s.borrow_mut().last_mut() {
+            *nest = nest.saturating_sub(1);
+        }
+    });
+}
+
+/// Operands of the comparison whose body is running (a stack: comparisons nest through function arguments).
+pub(crate) fn stash(v: Value) {
+    if active() {
+        STASH.with(|s| s.borrow_mut().push(v));
+    }
+}
+pub(crate) fn unstash() -> Value {
+    STASH.with(|s| s.borrow_mut().pop().unwrap_or(Value::Null))
+}
+
+/// The value seen through the trait, as JSON.
+pub(crate) fn to_json<T: Queryable>(v: &T) -> Value {
+    if let Some(a) = v.as_array() {
+        Value::Array(a.iter().map(to_json).collect())
+    } else if let Some(o) = v.as_object() {
+        Value::Object(o.into_iter().map(|(k, x)| (k.clone(), to_json(x))).collect())
+    } else if let Some(s) = v.as_str() {
+        Value::String(s.to_string())
+    } else if let Some(b) = v.as_bool() {
+        Value::Bool(b)
+    } else if let Some(i) = v.as_i64() {
+        json!(i)
+    } else if let Some(f) = v.as_f64() {
+        json!(f)
+    } else {
+        Value::Null
+    }
+}
+
+/// Operand of a comparison: a value, nothing, or a nodelist that is not a single node.
+pub(crate) fn operand<T: Queryable>(s: &State<T>) -> Value {
+    match &s.data {
+        Data::Value(v) => json!({"kind": "value", "value": to_json(v)}),
+        Data::Ref(p) => json!({"kind": "value", "value": to_json(p.inner)}),
+        Data::Refs(ps) => json!({"kind": "nodes", "n": ps.len()}),
+        Data::Nothing => json!({"kind": "nothing"}),
+    }
+}
+
+/// Addresses of the nodes of a nodelist (the harness maps them to locations).
+pub(crate) fn addrs<T: Queryable>(d: &Data<T>) -> Value {
+    match d {
+        Data::Ref(p) => json!([p.inner as *const T as usize]),
+        Data::Refs(ps) => Value::Array(ps.iter().map(|p| json!(p.inner as *const T as usize)).collect()),
+        _ => json!([]),
+    }
+}
